@@ -411,9 +411,11 @@ class _Twin:
     strongly the outputs react to a perturbation of the evaluation point
     (central differences): the conditioning that enters the tolerance."""
 
-    def __init__(self, model):
+    def __init__(self, model, unit_box=False):
         import copy
 
+        # data space restricted to [0, 1]^d (logit pre-transform)
+        self.unit_box = unit_box
         self.m = copy.deepcopy(model).double()
         self.m.train()  # drops cached float32 LU factors
         self.m.eval()
@@ -442,9 +444,12 @@ class _Twin:
                 h = 1e-6 * sc
                 e = np.zeros_like(p)
                 e[:, k] = h
-                a = self._eval(which, p + e)
-                b = self._eval(which, p - e)
-                w = sc / (2 * h)
+                pa, pb = p + e, p - e
+                if which == "F" and self.unit_box:
+                    pa, pb = np.clip(pa, 0.0, 1.0), np.clip(pb, 0.0, 1.0)
+                a = self._eval(which, pa)
+                b = self._eval(which, pb)
+                w = sc / (pa[:, k] - pb[:, k])
                 s_pt += np.abs(a[0] - b[0]) * w[:, None]
                 s_lj += np.abs(a[1] - b[1]) * w
                 s_lp += np.abs(a[2] - b[2]) * w
@@ -518,7 +523,7 @@ def _check_flow(case, out, dname, dtype):
     if not uniform:
         ck.finite(K_BN if n_bn else "nan:log_prob", lp,
                   "log_prob from forward_and_log_prob" + why_bn)
-    twin = _Twin(model)
+    twin = _Twin(model, unit_box=_unit_data(cfg))
     zr, ljf, lbf = _ref_forward(model, x, dtype)
     xr, lji, _ = _ref_inverse(model, zr, dtype)
     rt_key, lj_key, rtz_key = "roundtrip:x", "roundtrip:logdet", "roundtrip:z"
